@@ -38,3 +38,14 @@ func CleanupDBs() {
 
 // keep the model linked into every harness program
 var _ = mbolt.NewDB
+
+// TempPath returns a path for a scratch database file: inside a temp
+// directory natively, a name in the model's registry under the executor.
+func TempPath(name string) string {
+	dir, err := os.MkdirTemp("", "verif-db-")
+	if err != nil {
+		panic(divergence{err.Error()})
+	}
+	tempDirs = append(tempDirs, dir)
+	return filepath.Join(dir, name)
+}
